@@ -20,10 +20,10 @@ fn any_settings_error() -> SettingsError {
 }
 
 /// The message text is irrelevant to the property and `format!`/`to_string` through `core::fmt` into a
-/// growing `String` does not finish in Kani (> 5 min, 4 GB, measured): `Display for SettingsError` is
-/// replaced by one that writes nothing.  Nothing but the message depends on it.
-fn stub_settings_error_fmt(_e: &SettingsError, _f: &mut std::fmt::Formatter<'_>) -> std::fmt::Result {
-    Ok(())
+/// growing `String` does not finish in Kani (> 5 min, 4 GB, measured): `SettingsError::to_string` is
+/// replaced by one that returns the empty string.  Nothing but the message depends on it.
+fn stub_settings_error_to_string(_e: &SettingsError) -> String {
+    String::new()
 }
 
 // vp: props=C13,C05; tag=C13.code; kind=complete; tier=quick
@@ -31,7 +31,7 @@ fn stub_settings_error_fmt(_e: &SettingsError, _f: &mut std::fmt::Formatter<'_>)
 // H3_SETTINGS_ERROR (0x109, RFC 9114 §8.1); malformed frames of other kinds are H3_FRAME_ERROR (0x106),
 // HTTP/2 frame types H3_FRAME_UNEXPECTED (0x105)
 #[kani::proof]
-#[kani::stub(<SettingsError as std::fmt::Display>::fmt, stub_settings_error_fmt)]
+#[kani::stub(<SettingsError as std::string::ToString>::to_string, stub_settings_error_to_string)]
 #[kani::unwind(8)]
 fn c13_settings_error_code() {
     let e = any_settings_error();
